@@ -17,7 +17,7 @@
    by iso_check, whose soundness is proofs/DocIsoP.v (statement: spec/DocIsoS.v).
 
    No proofs in this file. *)
-From Coq Require Import NArith List Bool Arith.
+From Coq Require Import NArith List Bool Arith FSets.FMapPositive.
 Import ListNotations.
 From HV Require Import lib.Harness model.Validity.
 Local Open Scope N_scope.
@@ -59,29 +59,33 @@ Definition vop_eqb_with (fe : N -> N -> bool) (a b : vop) : bool :=
   end.
 
 (* ------------------------------------------------------------------ the traversal (oracle) *)
-Fixpoint dfs (fuel : nat) (g : graph) (stack acc : list N) : list N :=
+(* finite maps keyed by node index (stdlib FMapPositive): documents of a few thousand nodes occur, the walk is
+   O(n log n); nothing is proved about it *)
+Definition nkey (i : N) : positive := N.succ_pos i.
+(* parent |-> its children in index order (the root, index 0, is nobody's child) *)
+Definition kids_map (g : graph) : PositiveMap.t (list N) :=
+  fold_right (fun x m =>
+                if fst x =? 0 then m
+                else let p := nkey (n_parent (snd x)) in
+                     PositiveMap.add p (fst x :: match PositiveMap.find p m with Some l => l | None => [] end) m)
+             (PositiveMap.empty (list N)) (indexed (g_nodes g)).
+Fixpoint dfs (fuel : nat) (km : PositiveMap.t (list N)) (stack acc : list N) : list N :=
   match fuel with
   | O => rev acc
   | S f => match stack with
            | [] => rev acc
-           | x :: r => dfs f g (children g x ++ r) (x :: acc)
+           | x :: r => dfs f km (match PositiveMap.find (nkey x) km with Some l => l | None => [] end ++ r) (x :: acc)
            end
   end.
-Definition preorder (g : graph) : list N := dfs (length (g_nodes g)) g [0] [].
+Definition preorder (g : graph) : list N := dfs (length (g_nodes g)) (kids_map g) [0] [].
 
-(* position of x in l *)
-Fixpoint posN (x : N) (l : list N) (i : N) : option N :=
-  match l with [] => None | y :: r => if x =? y then Some i else posN x r (i + 1) end.
 Fixpoint upto (n : nat) (i : N) : list N := match n with O => [] | S m => i :: upto m (i + 1) end.
 (* pi[i] = the node of h at the pre-order position of node i of g; n (out of range) when the traversals do not fit *)
 Definition iso_map (g h : graph) : list N :=
-  let og := preorder g in
-  let oh := preorder h in
   let n := lenN (g_nodes g) in
-  map (fun i => match posN i og 0 with
-                | Some k => match nthN oh k with Some j => j | None => n end
-                | None => n
-                end) (upto (length (g_nodes g)) 0).
+  let m := fold_left (fun m kv => PositiveMap.add (nkey (fst kv)) (snd kv) m) (combine (preorder g) (preorder h))
+                     (PositiveMap.empty N) in
+  map (fun i => match PositiveMap.find (nkey i) m with Some j => j | None => n end) (upto (length (g_nodes g)) 0).
 
 (* ------------------------------------------------------------------ renaming *)
 Definition renN (pi : list N) (i : N) : N := match nthN pi i with Some j => j | None => i end.
